@@ -1,12 +1,602 @@
-//! C06 - (to be written)
+//! C06 - fresh ciphertexts carry the configured randomness: full noise, uniform mask (engine E1; conformance to R8).
+//!
+//! Three parts, all on every encrypting routine of poulpy-core that the public API reaches (GLWE sk / zero / pk /
+//! public-key generation / compressed, LWE, GGLWE, GGSW, switching / automorphism / tensor / GGLWE-to-GGSW keys with
+//! their compressed forms, GLWE->LWE, LWE->LWE, LWE->GLWE keys) and the poulpy-bin-fhe blind-rotation (standard and
+//! compressed) and circuit-bootstrapping keys:
+//!  * non-interference (exhaustive over {2 plaintexts} x {2 secrets} x {2 mask seeds} x {2 error seeds}): same inputs ->
+//!    byte-identical output (under different garbage in results and scratch); flipping the plaintext, the secret or the
+//!    error seed never changes any mask column; flipping the error seed changes the body of every cell; flipping the
+//!    mask seed changes the mask of every cell.
+//!  * conformance: the error of every cell, extracted exactly with the clear key against the plaintext the routine's
+//!    definition prescribes, is an integer at the declared limb, within the truncation bound, not identically zero;
+//!    mask digits and body digits lie in [-2^(b-1), 2^(b-1)); for GLWE / LWE forms (no ordering freedom) mask and
+//!    error are *equal* to the sampler model R8 run on the same seeds.
+//!  * an AGGREGATE two-sided band test over the enumerated executions (fixed seeds -> a constant of the code): pooled
+//!    error variance and mean per routine, chi-square of mask digit frequencies for radices <= 4.
 
-use pvc_engine::Run;
-use serde_json::Value;
+use crate::enc_util::*;
+use crate::objs::*;
+use poulpy_core::ScratchTakeCore;
+use poulpy_hal::layouts::{Module, Scratch};
+use pvc_common::phase::Dist;
+use pvc_common::{Bk, CoreAll, Family, HalAll, for_backends};
+use pvc_engine::{Rec, Run, Tier, fnv, hash_i64s};
+use pvc_model::IBig;
+use pvc_model::torus;
+use serde::{Deserialize, Serialize};
+use serde_json::{Value, json};
+use std::collections::{BTreeMap, HashSet};
 
-pub fn run(_run: &mut Run) {
-    panic!("C06: not implemented yet");
+#[derive(Clone, Debug, Serialize, Deserialize)]
+pub struct Case {
+    pub routine: Routine,
+    pub backend: String,
+    pub shape: Shape,
 }
 
-pub fn replay(_run: &mut Run, _d: &Value) {
-    panic!("C06: not implemented yet");
+fn mk_fail<'a>(
+    op: &'a str,
+    backend: &'a str,
+    c: &'a Case,
+    seen: &'a mut HashSet<String>,
+) -> impl FnMut(&mut Rec, &str, Value, Value) + 'a {
+    move |rec: &mut Rec, kind: &str, inner: Value, extra: Value| {
+        if !seen.insert(kind.to_string()) {
+            return;
+        }
+        let mut d = json!({"op": op, "backend": backend, "kind": kind, "case": c, "inner": inner});
+        if let (Value::Object(m), Value::Object(e)) = (&mut d, extra) {
+            for (k, v) in e {
+                m.insert(k, v);
+            }
+        }
+        rec.fail(d);
+    }
+}
+
+// ---------------------------------------------------------------------------------------------
+// non-interference
+// ---------------------------------------------------------------------------------------------
+
+pub fn exec_ni<B: Bk>(c: &Case, rec: &mut Rec)
+where
+    Module<B>: HalAll<B> + CoreAll<B>,
+    Scratch<B>: ScratchTakeCore<B>,
+{
+    let r = c.routine;
+    let m = B::module(c.shape.n);
+    rec.distinct(fnv(format!("{:?}", c).as_bytes()));
+    rec.sample(|| serde_json::to_value(c).unwrap());
+    let mut seen = HashSet::new();
+    let mut fail = mk_fail(r.name(), B::NAME, c, &mut seen);
+    let np = if r.has_plaintext() { 2 } else { 1 };
+    // all combinations
+    let mut objs: BTreeMap<(usize, usize, usize, usize), Obj> = BTreeMap::new();
+    for p in 0..np {
+        for s in 0..2 {
+            for a in 0..2 {
+                for e in 0..2 {
+                    let inp = Inp { p, s, a, e, g: 0 };
+                    rec.evals(1);
+                    match build::<B>(&m, r, &c.shape, &inp) {
+                        Ok(o) => {
+                            rec.outcome(fnv(&o.bytes));
+                            objs.insert((p, s, a, e), o);
+                        }
+                        Err(msg) => {
+                            fail(rec, "panic", json!({"p": p, "s": s, "a": a, "e": e}), json!({"panic": msg}));
+                            return;
+                        }
+                    }
+                }
+            }
+        }
+    }
+    // determinism under different garbage
+    for (&(p, s, a, e), o) in objs.iter() {
+        if (p + s + a + e) % 2 == 1 && (p, s, a, e) != (np - 1, 1, 1, 1) {
+            continue; // half of the corners plus the last one are rebuilt
+        }
+        rec.evals(1);
+        match build::<B>(&m, r, &c.shape, &Inp { p, s, a, e, g: 1 }) {
+            Ok(o2) => {
+                let same_cells = o.cells.len() == o2.cells.len()
+                    && o.cells.iter().zip(o2.cells.iter()).all(|(x, y)| x.body == y.body && x.mask == y.mask);
+                if o.bytes != o2.bytes || !same_cells {
+                    fail(
+                        rec,
+                        "not_deterministic",
+                        json!({"p": p, "s": s, "a": a, "e": e}),
+                        json!({"bytes_equal": o.bytes == o2.bytes, "cells_equal": same_cells,
+                               "detail": "same inputs, different garbage in result / scratch buffers"}),
+                    );
+                }
+            }
+            Err(msg) => fail(rec, "panic", json!({"p": p, "s": s, "a": a, "e": e, "g": 1}), json!({"panic": msg})),
+        }
+    }
+    // single-coordinate flips
+    let keys: Vec<(usize, usize, usize, usize)> = objs.keys().cloned().collect();
+    for &(p, s, a, e) in &keys {
+        let x = &objs[&(p, s, a, e)];
+        let at = json!({"p": p, "s": s, "a": a, "e": e});
+        // plaintext flip
+        if p == 0 && np == 2 {
+            let y = &objs[&(1, s, a, e)];
+            if let Some(cell) = first_mask_diff(x, y) {
+                fail(rec, "mask_changed_by_plaintext", at.clone(), json!({"cell": cell}));
+            }
+        }
+        if s == 0 {
+            let y = &objs[&(p, 1, a, e)];
+            if let Some(cell) = first_mask_diff(x, y) {
+                fail(rec, "mask_changed_by_secret", at.clone(), json!({"cell": cell}));
+            }
+        }
+        if e == 0 {
+            let y = &objs[&(p, s, a, 1)];
+            if r.mask_from_seed_only() {
+                if let Some(cell) = first_mask_diff(x, y) {
+                    fail(rec, "mask_changed_by_error_seed", at.clone(), json!({"cell": cell}));
+                }
+                for (cx, cy) in x.cells.iter().zip(y.cells.iter()) {
+                    if cx.body == cy.body {
+                        fail(rec, "body_ignores_error_seed", at.clone(), json!({"cell": [cx.key, cx.row, cx.col]}));
+                        break;
+                    }
+                }
+            } else if x.bytes == y.bytes {
+                fail(rec, "output_ignores_error_seed", at.clone(), json!({}));
+            }
+        }
+        if a == 0 {
+            let y = &objs[&(p, s, 1, e)];
+            for (cx, cy) in x.cells.iter().zip(y.cells.iter()) {
+                if cx.mask_cols > 0 && cx.mask == cy.mask {
+                    fail(rec, "mask_ignores_mask_seed", at.clone(), json!({"cell": [cx.key, cx.row, cx.col]}));
+                    break;
+                }
+            }
+        }
+    }
+}
+
+fn first_mask_diff(x: &Obj, y: &Obj) -> Option<Value> {
+    for (cx, cy) in x.cells.iter().zip(y.cells.iter()) {
+        if cx.mask != cy.mask {
+            return Some(json!([cx.key, cx.row, cx.col]));
+        }
+    }
+    None
+}
+
+// ---------------------------------------------------------------------------------------------
+// conformance
+// ---------------------------------------------------------------------------------------------
+
+fn stream_model_applies(r: Routine) -> bool {
+    matches!(
+        r,
+        Routine::GlweSk | Routine::GlweZeroSk | Routine::GlwePkGen | Routine::GlweCompressed | Routine::LweSk
+    )
+}
+
+pub fn exec_cf<B: Bk>(c: &Case, nseeds: usize, only_seed: Option<usize>, rec: &mut Rec)
+where
+    Module<B>: HalAll<B> + CoreAll<B>,
+    Scratch<B>: ScratchTakeCore<B>,
+{
+    let r = c.routine;
+    let sh = &c.shape;
+    let m = B::module(sh.n);
+    let case_hash = fnv(format!("{:?}", c).as_bytes());
+    rec.distinct(case_hash);
+    rec.sample(|| serde_json::to_value(c).unwrap());
+    let mut seen = HashSet::new();
+    let mut fail = mk_fail(r.name(), B::NAME, c, &mut seen);
+    let noise = sh.noise();
+    let (limb, emax) = noise_limb_bound(&noise, sh.b);
+    let bits = sh.bits();
+    let unit_sh = bits - (limb + 1) * sh.b;
+    let size = sh.size();
+    let half = 1i64 << (sh.b - 1);
+    let scale_log = (limb + 1) * sh.b - noise.k;
+    // aggregate counters (errors that cannot wrap around the torus only)
+    let pool = sh.noise == 0 && scale_log <= 1 && noise.k >= 8 && r != Routine::GlwePk;
+    let (mut cnt, mut sumsq, mut pos, mut neg) = (0u64, 0u64, 0u64, 0u64);
+    let mut hist = vec![0u64; if sh.b <= 4 { 1 << sh.b } else { 0 }];
+    // one coefficient per LWE ciphertext: more seeds so that the aggregate band sees enough samples
+    let nseeds = if r == Routine::LweSk { nseeds * 32 } else { nseeds };
+    for seed in 0..nseeds {
+        if only_seed.is_some_and(|x| x != seed) {
+            continue;
+        }
+        // seed streams are unique per (outer case, seed index), so that the executions pooled by the aggregate band
+        // are distinct draws (a function of the case only: replays reproduce them)
+        let sidx = 1 + (case_hash % (1 << 40)) as usize * 64 + seed;
+        let inp = Inp {
+            p: seed % 2,
+            s: sidx,
+            a: sidx,
+            e: sidx,
+            g: seed % 2,
+        };
+        rec.evals(1);
+        let o = match build::<B>(&m, r, sh, &inp) {
+            Ok(o) => o,
+            Err(msg) => {
+                fail(rec, "panic", json!({"seed": seed}), json!({"panic": msg}));
+                continue;
+            }
+        };
+        let factor: i128 = if r == Routine::GlwePk { 1 + u_l1_max(sh.n, Dist::TernaryProb) + o.key_l1 } else { 1 };
+        let tol: IBig = IBig::from(emax * factor) << unit_sh;
+        let mut all_zero = true;
+        let mut ncoeff = 0usize;
+        for cell in &o.cells {
+            let id = json!({"seed": seed, "key": cell.key, "row": cell.row, "col": cell.col});
+            if cell.mask.iter().any(|&x| x < -half || x >= half) {
+                fail(rec, "mask_digit_out_of_range", id.clone(), json!({}));
+            }
+            if cell.body.iter().any(|&x| x < -half || x >= half) {
+                fail(rec, "digits_not_normalised", id.clone(), json!({}));
+            }
+            for &d in &cell.mask {
+                if !hist.is_empty() && r.mask_from_seed_only() && d >= -half && d < half {
+                    hist[(d + half) as usize] += 1;
+                }
+            }
+            for (i, e) in cell.err.iter().enumerate() {
+                ncoeff += 1;
+                if *e != IBig::from(0) {
+                    all_zero = false;
+                }
+                if torus::abs(e) > tol {
+                    fail(
+                        rec,
+                        "noise_too_large",
+                        id.clone(),
+                        json!({"index": i, "err": e.to_string(), "tol": tol.to_string(), "scaled_bits": bits,
+                               "err_over_bound": approx_units(&torus::abs(e), 0) / approx_units(&tol, 0).max(1e-300)}),
+                    );
+                    break;
+                }
+                if unit_sh > 0 && torus::centered_mod_pow2(e, unit_sh) != IBig::from(0) {
+                    fail(rec, "error_below_declared_limb", id.clone(), json!({"index": i, "err": e.to_string(), "noise_limb": limb}));
+                    break;
+                }
+                if pool {
+                    let ei: IBig = e >> unit_sh;
+                    if let Some(v) = ibig_to_i128(&ei) {
+                        cnt += 1;
+                        sumsq += (v * v) as u64;
+                        if v >= 0 {
+                            pos += v as u64;
+                        } else {
+                            neg += (-v) as u64;
+                        }
+                    }
+                }
+            }
+            rec.outcome(hash_i64s(&cell.body));
+        }
+        // the default configuration (sigma 3.2) leaves an all-zero error vector of >= 8 coefficients with probability < 6e-8
+        // (k >= 8: a non-zero error within the bound cannot vanish modulo 1)
+        if sh.noise == 0 && all_zero && ncoeff >= 8 && noise.k >= 8 {
+            fail(rec, "no_error_added", json!({"seed": seed}), json!({"coefficients": ncoeff}));
+        }
+        // stream conformance for the forms without ordering freedom
+        if stream_model_applies(r) {
+            let cell = &o.cells[0];
+            let (want_mask, nerr) = if r == Routine::LweSk {
+                (model_lwe_mask(mask_seed(sidx), sh.b, sh.n, size), 1)
+            } else {
+                (model_glwe_mask(mask_seed(sidx), sh.b, sh.n, sh.rank, size), sh.n)
+            };
+            if cell.mask != want_mask {
+                let i = cell.mask.iter().zip(&want_mask).position(|(x, y)| x != y).unwrap_or(0);
+                fail(
+                    rec,
+                    "mask_differs_from_sampler_model",
+                    json!({"seed": seed}),
+                    json!({"index": i, "got": cell.mask.get(i), "want": want_mask.get(i)}),
+                );
+            }
+            let want_err: Vec<IBig> = model_errors(error_seed(sidx), &noise, sh.b, nerr)
+                .iter()
+                .map(|&e| torus::centered_mod_pow2(&(IBig::from(e) << unit_sh), bits))
+                .collect();
+            if cell.err != want_err {
+                let i = cell.err.iter().zip(&want_err).position(|(x, y)| x != y).unwrap_or(0);
+                fail(
+                    rec,
+                    "error_differs_from_sampler_model",
+                    json!({"seed": seed}),
+                    json!({"index": i, "got": cell.err[i].to_string(), "want": want_err[i].to_string(), "scaled_bits": bits}),
+                );
+            }
+        }
+    }
+    if pool && cnt > 0 {
+        let key = format!("{:?}/s{}", r, scale_log);
+        rec.add(&format!("agg/n/{key}"), cnt);
+        rec.add(&format!("agg/sumsq/{key}"), sumsq);
+        rec.add(&format!("agg/pos/{key}"), pos);
+        rec.add(&format!("agg/neg/{key}"), neg);
+    }
+    if !hist.is_empty() && hist.iter().sum::<u64>() > 0 {
+        for (v, &h) in hist.iter().enumerate() {
+            rec.add(&format!("dig/{:?}/b{}/{}", r, sh.b, v), h);
+        }
+    }
+}
+
+// ---------------------------------------------------------------------------------------------
+// aggregate band
+// ---------------------------------------------------------------------------------------------
+
+/// two-sided normal quantile used for every band: false-alarm probability below 2^-40 per statistic
+const Z: f64 = 7.2;
+
+/// upper chi-square quantile (Wilson-Hilferty), conservative for small df
+fn chi2_upper(df: f64) -> f64 {
+    let t = 1.0 - 2.0 / (9.0 * df) + Z * (2.0 / (9.0 * df)).sqrt();
+    (df * t * t * t).max(Z * Z + df)
+}
+
+fn aggregate(extra: &BTreeMap<String, u64>, backend: &str, min_samples: u64, rec: &mut Rec) {
+    let mut keys: Vec<String> = extra.keys().filter_map(|k| k.strip_prefix("agg/n/").map(|s| s.to_string())).collect();
+    keys.sort();
+    for key in keys {
+        let n = extra[&format!("agg/n/{key}")] as f64;
+        let sumsq = extra[&format!("agg/sumsq/{key}")] as f64;
+        let pos = *extra.get(&format!("agg/pos/{key}")).unwrap_or(&0) as f64;
+        let neg = *extra.get(&format!("agg/neg/{key}")).unwrap_or(&0) as f64;
+        let scale = if key.ends_with("/s1") { 2.0 } else { 1.0 };
+        let var_want = (SIGMA * scale) * (SIGMA * scale) + 1.0 / 12.0; // rounding a continuous variable adds 1/12
+        let var_have = sumsq / n;
+        let rel = Z * (2.0 / n).sqrt();
+        let mean = (pos - neg) / n;
+        let mean_tol = Z * var_want.sqrt() / n.sqrt();
+        rec.evals(1);
+        rec.add("statistics", 1);
+        if (n as u64) < min_samples {
+            rec.add("statistics_below_min_samples", 1);
+        }
+        let desc = |kind: &str| {
+            json!({"op": key, "backend": backend, "kind": kind, "case": {"aggregate": key}, "inner": {},
+                   "samples": n, "variance_have": var_have, "variance_want": var_want, "relative_band": rel, "mean": mean, "mean_tol": mean_tol})
+        };
+        if (var_have / var_want - 1.0).abs() > rel {
+            rec.fail(desc(if var_have < var_want { "aggregate_variance_too_small" } else { "aggregate_variance_too_large" }));
+        }
+        if mean.abs() > mean_tol {
+            rec.fail(desc("aggregate_mean_off_zero"));
+        }
+    }
+    // digit frequencies
+    let mut groups: BTreeMap<String, Vec<(usize, u64)>> = BTreeMap::new();
+    for (k, &v) in extra {
+        if let Some(rest) = k.strip_prefix("dig/") {
+            let (g, val) = rest.rsplit_once('/').unwrap();
+            groups.entry(g.to_string()).or_default().push((val.parse().unwrap(), v));
+        }
+    }
+    for (g, vals) in groups {
+        let total: u64 = vals.iter().map(|x| x.1).sum();
+        let kinds = vals.len() as f64;
+        let exp = total as f64 / kinds;
+        if exp < 20.0 {
+            continue;
+        }
+        let chi2: f64 = vals.iter().map(|&(_, o)| (o as f64 - exp) * (o as f64 - exp) / exp).sum();
+        let thr = chi2_upper(kinds - 1.0);
+        rec.evals(1);
+        rec.add("statistics", 1);
+        let missing: Vec<usize> = vals.iter().filter(|x| x.1 == 0).map(|x| x.0).collect();
+        if chi2 > thr || !missing.is_empty() {
+            rec.fail(json!({"op": g, "backend": backend, "kind": "aggregate_mask_digits_not_uniform", "case": {"aggregate": g}, "inner": {},
+                            "digits": total, "chi2": chi2, "threshold": thr, "values_never_seen": missing}));
+        }
+    }
+}
+
+// ---------------------------------------------------------------------------------------------
+// enumeration
+// ---------------------------------------------------------------------------------------------
+
+fn bmax<B: Bk>(n: usize) -> usize {
+    match B::FAMILY {
+        Family::Fft64 => 50 - n.trailing_zeros() as usize,
+        Family::Ntt120 => 52,
+    }
+}
+
+/// shapes admissible for routine r
+fn shapes<B: Bk>(r: Routine, tier: Tier, conformance: bool) -> Vec<Shape> {
+    let mut out = vec![];
+    let ns: Vec<usize> = if conformance { vec![8, 16] } else { tier.pick(vec![8], vec![8, 16]) };
+    for &n in &ns {
+        let ranks: Vec<usize> = if r == Routine::LweSk {
+            vec![1]
+        } else if r.rank_out_one() {
+            vec![1]
+        } else if r.is_matrix() {
+            tier.pick(vec![1, 2], vec![1, 2, 3])
+        } else if conformance {
+            tier.pick(vec![0, 1, 2], vec![0, 1, 2, 3])
+        } else {
+            vec![1, 2]
+        };
+        for &rank in &ranks {
+            let rank_ins: Vec<usize> = if r.has_rank_in() { tier.pick(vec![1, 2], vec![1, 2, 3]) } else { vec![rank] };
+            for &rank_in in &rank_ins {
+                if r.has_rank_in() && !conformance && rank_in > 2 {
+                    continue;
+                }
+                let radices: Vec<usize> = if conformance {
+                    let mut v = tier.pick(vec![2, 4, 17], vec![1, 2, 3, 4, 12, 17]);
+                    if tier.is_thorough() {
+                        v.push(bmax::<B>(n));
+                    }
+                    v
+                } else {
+                    vec![3, 17]
+                };
+                for &b in &radices {
+                    let grids: Vec<(usize, usize)> = if !r.is_matrix() {
+                        vec![(1, 1)]
+                    } else if r.dsize_one() {
+                        tier.pick(vec![(1, 1), (2, 1)], vec![(1, 1), (2, 1), (3, 1)])
+                    } else {
+                        tier.pick(vec![(1, 1), (2, 1), (2, 2)], vec![(1, 1), (2, 1), (3, 1), (1, 2), (2, 2)])
+                    };
+                    for (dnum, dsize) in grids {
+                        let smin = if r.is_matrix() { (dnum * dsize).max(dsize + 1) } else { 1 };
+                        let sizes: Vec<usize> = if r.is_matrix() { vec![smin] } else { tier.pick(vec![1, 2], vec![1, 2, 3]) };
+                        for size in sizes {
+                            // residues of k modulo b: multiple of b, one below, half way, one above the previous multiple
+                            let mut ks = vec![size * b];
+                            if conformance {
+                                if b > 1 {
+                                    ks.push(size * b - 1);
+                                }
+                                if b > 3 {
+                                    ks.push(size * b - b / 2);
+                                    ks.push((size - 1) * b + 1);
+                                }
+                            } else if b > 1 {
+                                ks = vec![size * b - 1];
+                            }
+                            ks.sort();
+                            ks.dedup();
+                            for k in ks {
+                                let extras: Vec<usize> = if conformance && (!r.is_matrix() || tier.is_thorough()) { vec![0, 1] } else { vec![0] };
+                                for extra in extras {
+                                    let noises: Vec<u8> = if conformance { tier.pick(vec![0, 1], vec![0, 1, 2]) } else { vec![0] };
+                                    for noise in noises {
+                                        if noise > 0 && (extra > 0 || (r.is_matrix() && (dnum, dsize) != (2, 1))) {
+                                            continue;
+                                        }
+                                        out.push(Shape {
+                                            n,
+                                            b,
+                                            k,
+                                            rank,
+                                            rank_in,
+                                            dnum,
+                                            dsize,
+                                            noise,
+                                            extra,
+                                        });
+                                    }
+                                }
+                            }
+                        }
+                    }
+                }
+            }
+        }
+    }
+    out
+}
+
+fn fam_ni<B: Bk>(run: &mut Run)
+where
+    Module<B>: HalAll<B> + CoreAll<B>,
+    Scratch<B>: ScratchTakeCore<B>,
+{
+    let mut cs = vec![];
+    for &routine in ALL_ROUTINES.iter() {
+        for shape in shapes::<B>(routine, run.tier, false) {
+            cs.push(Case {
+                routine,
+                backend: B::NAME.into(),
+                shape,
+            });
+        }
+    }
+    run.family(
+        &format!("noninterference/{}", B::NAME),
+        "outer = (routine (24), N, ranks, radix in {3,17}, dnum x dsize grid); inner = all 16 combinations of {2 plaintexts} x {2 secrets} x {2 mask seeds} x {2 error seeds} + rebuilds under different garbage; every single-coordinate flip is compared cell by cell (mask / body bytes); distinct = outer cases",
+        cs,
+        |c, rec| exec_ni::<B>(c, rec),
+    );
+}
+
+fn conformance_seeds(tier: Tier) -> usize {
+    tier.pick(10, 16)
+}
+
+fn fam_cf<B: Bk>(run: &mut Run)
+where
+    Module<B>: HalAll<B> + CoreAll<B>,
+    Scratch<B>: ScratchTakeCore<B>,
+{
+    let mut cs = vec![];
+    for &routine in ALL_ROUTINES.iter() {
+        for shape in shapes::<B>(routine, run.tier, true) {
+            cs.push(Case {
+                routine,
+                backend: B::NAME.into(),
+                shape,
+            });
+        }
+    }
+    let ns = conformance_seeds(run.tier);
+    let name = format!("conformance/{}", B::NAME);
+    run.family(
+        &name,
+        "outer = (routine (24), N, ranks incl. 0 for single ciphertexts, radices 1..4,12,17,backend maximum, dnum x dsize grid, precision k at several residues mod b, extra limbs, noise configuration default / tight (3.2,3.2) / (1,1)); inner = seed families; every cell: exact error (phase under the clear key minus the defined plaintext) is an integer at the declared limb within the bound and not identically zero, digits in range; GLWE/LWE forms: mask and error equal to the sampler model on the same seeds; distinct = outer cases",
+        cs,
+        |c, rec| exec_cf::<B>(c, ns, None, rec),
+    );
+    // aggregate band over what this family executed
+    let extra = run.families.iter().rev().find(|f| f.name == name).map(|f| f.rec.extra.clone());
+    let min_samples: u64 = run.tier.pick(1 << 10, 1 << 14);
+    if let Some(extra) = extra {
+        run.single(
+            &format!("aggregate_band/{}", B::NAME),
+            "AGGREGATE over the enumerated executions of the conformance family (fixed seeds, so the statistic is a constant of the code; not a statement about all seeds): per routine and error scale (1 or 2) the pooled variance of the extracted integer errors lies within sigma^2*scale^2 + 1/12 times (1 +- 7.2*sqrt(2/M)) and the pooled mean within 7.2*sigma/sqrt(M) of zero; for radices <= 4 the chi-square statistic of the mask digit frequencies stays below the 2^-40 quantile and every digit value occurs",
+            |rec| aggregate(&extra, B::NAME, min_samples, rec),
+        );
+    }
+}
+
+pub fn run(run: &mut Run) {
+    run.assume("secrets are ternary (p = 1/2); plaintexts: GLWE/LWE messages of extreme / random digits, GGLWE/GGSW small ternary polynomials, keys: the secrets the routine prescribes; scratch = companion query + 4096 bytes slack, garbage-filled; receivers pre-filled with random 64-bit words");
+    run.assume("public-key encryption mixes the ephemeral secret and fresh errors into the mask columns: for glwe_encrypt_pk only determinism, independence of the mask from plaintext and secret, dependence of the output on both seeds, and the (1+|u|_1+|s|_1)*bound error bound are demanded");
+    run.assume("stream-level equality with the sampler model is demanded only where the order of draws is fixed by the definition (GLWE sk / zero / public-key generation / compressed GLWE, LWE); for matrices and keys the order is an implementation choice and only cell-wise well-formedness is demanded");
+    run.assume("the band test is an AGGREGATE over enumerated executions with fixed seeds; bands use the normal quantile 7.2 (false-alarm probability < 2^-40 per statistic if the seeds were random)");
+    run.assume("poulpy-bin-fhe: blind-rotation key (CGGI, 3 LWE bits), its compressed form and the circuit-bootstrapping key are driven; their cells are read back from the public serialisation; not driven: LWE-related compressed forms (no encrypting routine exists)");
+    for_backends!(fam_ni(run));
+    for_backends!(fam_cf(run));
+}
+
+pub fn replay(run: &mut Run, d: &Value) {
+    let backend = d["backend"].as_str().unwrap_or("").to_string();
+    let fam = d["family"].as_str().unwrap_or("replay").to_string();
+    if fam.starts_with("aggregate_band") {
+        eprintln!("aggregate statistics are replayed by re-running the check (no single case)");
+        std::process::exit(2);
+    }
+    let c: Case = serde_json::from_value(d["case"].clone()).expect("case");
+    let seed = d.get("inner").and_then(|i| i.get("seed")).and_then(|v| v.as_u64()).map(|v| v as usize);
+    macro_rules! go {
+        ($B:ty) => {
+            if fam.starts_with("noninterference") {
+                run.single(&fam, "replay", |rec| exec_ni::<$B>(&c, rec))
+            } else {
+                run.single(&fam, "replay", |rec| exec_cf::<$B>(&c, 16, seed, rec))
+            }
+        };
+    }
+    match backend.as_str() {
+        "fft64-ref" => go!(pvc_common::FFT64Ref),
+        "ntt120-ref" => go!(pvc_common::NTT120Ref),
+        "fft64-avx" => go!(pvc_common::FFT64Avx),
+        "ntt120-avx" => go!(pvc_common::NTT120Avx),
+        o => panic!("unknown backend {o}"),
+    }
 }
